@@ -1,7 +1,7 @@
 (* C20 — Lazily initialised shared state is safe under every thread interleaving.  Statements only. *)
 From Coq Require Import List Arith Bool ZArith Permutation String.
 From KV Require Import Base.Sx Gen.Generated Model.LazyInit Proofs.LazyInitP Model.TaskGraph Proofs.TaskGraphP
-                       Model.Guarded Proofs.GuardedP Model.SharedSites Proofs.SharedSitesP.
+                       Model.Guarded Proofs.GuardedP Model.SharedSites Proofs.SharedSitesP Model.LockOrder Proofs.LockOrderP.
 Import ListNotations.
 Close Scope Z_scope.
 Open Scope nat_scope.
@@ -351,3 +351,34 @@ Theorem C20_request_example :
   p_free (r_pool r) = [1] /\ r_lost r = 1 /\ p_next (r_pool r) = 2 /\ r_unheld r = false.
 Proof. exact request_example. Qed.
 Print Assumptions C20_request_example.
+
+(* ---------- several locks taken in a fixed order (nested DaskLazyIndexer objects, the concatenated sensor cache and its parts) ---------- *)
+(* plain locks named by their rank; every thread asks only for a lock that ranks above all it holds, releases in reverse
+   order and ends holding nothing (`ordered`).  For ANY finite set of threads, programs and schedule:
+   NO DEADLOCK -- as long as some thread has not finished, some thread can take its next step;
+   MUTUAL EXCLUSION -- no lock is ever held by two threads. *)
+Theorem C20_lock_order_no_deadlock : forall ts prog schedule,
+  (forall t, ordered [] (prog t) = true) -> (forall t, ~ In t ts -> prog t = []) ->
+  let c := hexec ts (hinit prog) schedule in
+  (exists t, In t ts /\ h_prog c t <> []) ->
+  exists t, In t ts /\ List.length (h_prog (hstep ts c t) t) < List.length (h_prog c t).
+Proof. exact hier_no_deadlock. Qed.
+Print Assumptions C20_lock_order_no_deadlock.
+Theorem C20_lock_order_mutex : forall ts prog schedule,
+  (forall t, ordered [] (prog t) = true) -> (forall t, ~ In t ts -> prog t = []) ->
+  let c := hexec ts (hinit prog) schedule in
+  forall t1 t2 l, In t1 ts -> In t2 ts -> In l (h_held c t1) -> In l (h_held c t2) -> t1 = t2.
+Proof. exact hier_mutex. Qed.
+Print Assumptions C20_lock_order_mutex.
+(* the discipline is needed (two locks, opposite orders: both threads blocked for ever); and it is not vacuous (two outer
+   indexers over one inner one, interleaved, both finish) *)
+Theorem C20_lock_order_unordered_refuted :
+  let c := hexec [0; 1] (hinit cross) [0; 1] in
+  h_prog c 0 <> [] /\ hstep [0; 1] c 0 = c /\ hstep [0; 1] c 1 = c.
+Proof. exact unordered_deadlock. Qed.
+Print Assumptions C20_lock_order_unordered_refuted.
+Theorem C20_lock_order_example :
+  (forall t, ordered [] (nested2 t) = true) /\
+  let c := hexec [0; 1] (hinit nested2) [0; 1; 0; 1; 1; 0; 0; 1; 1; 1] in h_prog c 0 = [] /\ h_prog c 1 = [].
+Proof. exact nested_example. Qed.
+Print Assumptions C20_lock_order_example.
